@@ -75,6 +75,12 @@ def prod(
     """
     a = numpoly.aspolynomial(a)
     assert out is None
+    # like numpy.prod (and numpoly.sum): integers with less precision than the
+    # platform integer are multiplied in the platform integer.
+    if a.dtype.kind in "bi" and a.dtype.itemsize < numpy.dtype(int).itemsize:
+        a = a.astype(int)
+    elif a.dtype.kind == "u" and a.dtype.itemsize < numpy.dtype(numpy.uint).itemsize:
+        a = a.astype(numpy.uint)
     if keepdims:
         if axis is None:
             out = _prod(numpoly.reshape(a, -1), axis=0)
